@@ -193,6 +193,11 @@ def _is_instance_strict(v, o):
     return True
 
 
+# Options(addition=True | T) in force lets a fixed-length tuple carry further items (that is how `items` next to `prefixItems`
+# is expressed): checks that run under such options set this while judging (the extra items are not judged)
+TUPLE_EXTRA_OK = [False]
+
+
 def conforms(v, spec, why=None, inst_check=None):
     """True iff *v* is a conforming result for *spec*.  `why` (list) receives the first reason.
     inst_check(v, declspec, why) judges data-class instances (supplied by dspec)."""
@@ -238,7 +243,7 @@ def conforms(v, spec, why=None, inst_check=None):
     if k == "tuple":
         if not isinstance(v, tuple):
             return no(f"tuple/not-instance:{type(v).__name__}")
-        if len(v) != len(spec["a"]):
+        if len(v) < len(spec["a"]) or (len(v) > len(spec["a"]) and not TUPLE_EXTRA_OK[0]):
             return no("tuple/wrong-length")
         for i, (e, a) in enumerate(zip(v, spec["a"])):
             if not conforms(e, a, why, inst_check):
